@@ -59,7 +59,8 @@ from bqskit.runtime.address import RuntimeAddress
 from bqskit.runtime.task import RuntimeTask
 from bqskit.runtime import get_runtime
 
-TIMEOUT = 300.0      # generous: the box may be heavily loaded; a real hang is still reported
+logging.getLogger('bqskit.runtime').setLevel(logging.CRITICAL + 1)   # worker/server tracebacks are observed, not printed
+TIMEOUT = 90.0       # generous: the box may be heavily loaded; a real hang is still reported
 
 
 class SimHang(Exception):
@@ -71,6 +72,25 @@ class SimHang(Exception):
 # ---------------------------------------------------------------------------
 _tl = threading.local()
 wmod.get_worker = lambda: _tl.worker          # one "process" per thread
+
+
+class WorkerKilled(Exception):
+    """The real worker would have SIGKILLed its own process here (SHUTDOWN / lost connection)."""
+
+
+class _OsProxy:
+    # bqskit.runtime.worker calls os.kill(os.getpid(), SIGKILL) on SHUTDOWN: never let that hit the harness
+    def __getattr__(self, name):
+        import os as _os
+        return getattr(_os, name)
+
+    def kill(self, pid, sig):
+        raise WorkerKilled('os.kill(%s, %s)' % (pid, sig))
+
+
+wmod.os = _OsProxy()
+import bqskit.runtime.detached as _dmod  # noqa: E402
+_dmod.time = type('T', (), {'sleep': staticmethod(lambda s: None), 'time': staticmethod(__import__('time').time)})()
 _LOG: list = []                                # replaced per Sim (single Sim alive at a time per process)
 
 
@@ -416,6 +436,11 @@ def cmsg(mp):
     return ['other', m.name]
 
 
+def cchan(q):
+    # SHUTDOWN is what a dying server broadcasts; the run ends there and the model has no such message
+    return [cmsg(m) for m in q if m[0] != M.SHUTDOWN]
+
+
 class Sim:
     def __init__(self, k: int, seed: int = 0, fine: bool = True):
         global _LOG
@@ -499,6 +524,8 @@ class Sim:
     # -- events ------------------------------------------------------------
     def enabled(self):
         ev = []
+        if self.server_dead is not None:
+            return ev           # the server shut the whole runtime down
         for r in self.workers:
             if self.down[r.wid] and r.rdead is None:
                 ev.append(('recv', r.wid))
@@ -514,6 +541,10 @@ class Sim:
         info = {}
         if kind == 'recv':
             r.inbox = self.down[i].pop(0)
+            if r.inbox[0] == M.SHUTDOWN:        # would SIGKILL the process
+                r.inbox = None
+                r.rdead = 'SHUTDOWN'
+                return info
             r.rgate.advance()
         elif kind == 'main':
             r.gate.advance()
@@ -544,11 +575,11 @@ class Sim:
                           caddr(b.dest_addr), fresh])
         return ['W', w._id, r.pc(), tasks, [caddr(t.return_address) for t in w._delayed_tasks],
                 [caddr(a) for a in list(w._ready_task_ids.queue)], boxes, w._mailbox_counter,
-                caddr(w.most_recent_read_submit), [cmsg(m) for m in r.up], r.rdead is not None]
+                caddr(w.most_recent_read_submit), cchan(r.up), r.rdead is not None]
 
     def dump(self) -> str:
         ws = [self.dump_worker(r) for r in self.workers]
-        down = [[cmsg(m) for m in d] for d in self.down]
+        down = [cchan(d) for d in self.down]
         return fmt([ws, down])
 
     def close(self):
